@@ -8,6 +8,11 @@
  *   steal how many times the function calls Parmap::next() after its own element: 0 = never, k>0 = up to k times,
  *         -1 = until next() returns none (the pattern of SwappedContext::suspend)
  *   spin  busy iterations per element (varies the interleaving; never used as a verdict)
+ *   optional 4th item = injected-fault class "non-round wake-up of idle workers": [[pos, spin, kicks], ...] = slow elements:
+ *         the element at index pos costs `spin` extra busy iterations, split in kicks+1 slices; between two slices the thread
+ *         that processes it sends a signal (no-op handler installed WITHOUT SA_RESTART) to every parmap worker thread
+ *         (tgkill on all tasks of the process except itself, the controller and the watchdog): a worker sleeping in
+ *         futex_wait() then returns with EINTR although no round started, which futex(2) allows at any time.
  * The whole sequence is repeated R times on the same Parmap.  One JSON line per apply():
  *   {"a":index,"n":n,"lost":[...],"dup":[...],"bad":k,"used":threads that processed >=1 element}
  *     lost/dup = elements (at most 8 each) whose counter is 0 / >1 when apply() returns; bad = values outside the vector
@@ -38,6 +43,7 @@ static std::atomic<unsigned long> progress{0};
 static std::atomic<int> next_slot{0};
 static thread_local int my_slot = -1;
 static std::atomic<bool> finished{false};
+static std::atomic<pid_t> watchdog_tid{0};
 
 static bool all_others_sleeping(pid_t self_tid)
 {
@@ -83,6 +89,7 @@ static double cpu_seconds()
 static void watchdog()
 {
   pid_t tid          = static_cast<pid_t>(syscall(SYS_gettid));
+  watchdog_tid.store(tid);
   unsigned long last = progress.load();
   int stuck          = 0;
   double cpu_mark    = cpu_seconds();
@@ -110,7 +117,46 @@ static void watchdog()
   }
 }
 
+/* ---- injected fault: non-round wake-ups (EINTR) of the worker threads ---- */
+static int kick_signal;
+static std::vector<pid_t> kick_targets; // the worker threads of the Parmap (not the controller, not the watchdog)
+static std::atomic<long> kicks_sent{0};
+static void kick_handler(int) {}
+static pid_t gettid_()
+{
+  return static_cast<pid_t>(syscall(SYS_gettid));
+}
+static void collect_targets(pid_t controller)
+{
+  kick_targets.clear();
+  DIR* d = opendir("/proc/self/task");
+  if (d == nullptr)
+    return;
+  while (const dirent* e = readdir(d)) {
+    if (e->d_name[0] == '.')
+      continue;
+    pid_t t = atoi(e->d_name);
+    if (t != controller && t != watchdog_tid.load())
+      kick_targets.push_back(t);
+  }
+  closedir(d);
+}
+static void kick_all()
+{
+  pid_t me  = gettid_();
+  pid_t pid = getpid();
+  for (pid_t t : kick_targets)
+    if (t != me && syscall(SYS_tgkill, pid, t, kick_signal) == 0)
+      kicks_sent.fetch_add(1, std::memory_order_relaxed);
+}
+
+struct Slow {
+  int pos;
+  long spin;
+  int kicks;
+};
 struct Apply {
+  std::vector<Slow> slow;
   std::vector<int> data;
   std::unique_ptr<std::atomic<int>[]> count;
   std::vector<int> snapshot;
@@ -135,12 +181,22 @@ static int run_case(const std::string& text)
   unsigned threads         = c["threads"].get<unsigned>();
   int reps                 = c.value("reps", 1);
 
+  kick_signal = SIGRTMIN + 3;
+  struct sigaction sa;
+  memset(&sa, 0, sizeof sa);
+  sa.sa_handler = kick_handler; // no SA_RESTART: an interrupted futex_wait() returns EINTR
+  sigemptyset(&sa.sa_mask);
+  sigaction(kick_signal, &sa, nullptr);
+
   std::thread dog(watchdog);
   dog.detach();
+  while (watchdog_tid.load() == 0)
+    std::this_thread::yield();
 
   std::vector<std::unique_ptr<Apply>> all;
   {
     simgrid::xbt::Parmap<int> parmap(threads, mode);
+    collect_targets(gettid_()); // all worker threads exist now (created by the constructor)
     for (int rep = 0; rep < reps; rep++) {
       for (auto const& a : c["applies"]) {
         int n     = a[0].get<int>();
@@ -156,6 +212,10 @@ static int run_case(const std::string& text)
           ap.count[i].store(0);
         for (auto& u : ap.used)
           u.store(0);
+        if (a.size() > 3 && a[3].is_array())
+          for (auto const& sl : a[3])
+            ap.slow.push_back({sl[0].get<int>(), sl[1].get<long>(), sl[2].get<int>()});
+        long kicks_before = kicks_sent.load();
         Apply* app = &ap; // everything is captured by value: a (faulty) late worker must not touch a dead stack frame
         auto* pm   = &parmap;
         parmap.apply(
@@ -167,6 +227,16 @@ static int run_case(const std::string& text)
                 volatile int sink = 0;
                 for (int k = 0; k < spin; k++)
                   sink = sink + k;
+                for (auto const& sl : app->slow) // slow element: the value at index pos is n-1-pos
+                  if (v == n - 1 - sl.pos) {
+                    long slice = sl.spin / (sl.kicks + 1);
+                    for (int j = 0; j <= sl.kicks; j++) {
+                      for (long k = 0; k < slice; k++)
+                        sink = sink + 1;
+                      if (j < sl.kicks)
+                        kick_all();
+                    }
+                  }
                 if (v < 0 || v >= n)
                   app->count[n].fetch_add(1);
                 else
@@ -209,6 +279,8 @@ static int run_case(const std::string& text)
         for (auto& u : ap.used)
           nused += u.load();
         out["used"] = nused;
+        if (not ap.slow.empty())
+          out["kicks"] = kicks_sent.load() - kicks_before;
         printf("%s\n", out.dump().c_str());
       }
     }
